@@ -433,6 +433,39 @@ def check_misc(case: str, ctx: Ctx) -> None:
             def collect_errors(self, val: t.Any) -> t.Any:
                 return None if type(val) is int else WrongTypeError(self.expected(), val)
         H = {int: Hundred()}
+        # ... and the same for a type which is not a scalar: the built-in serialiser writes it (the handler's converter brings none)
+        import datetime as _dt
+
+        class DayReader(Converter):      # type: ignore
+            def expected(self, plural: bool = False) -> str:
+                return 'a day like 2020-01-02 or 20200102'
+
+            def try_convert(self, val: t.Any) -> t.Any:
+                if not isinstance(val, str):
+                    raise ParseInterrupt()
+                try:
+                    return _dt.date.fromisoformat(val) if '-' in val else _dt.datetime.strptime(val, '%Y%m%d').date()
+                except ValueError:
+                    raise ParseInterrupt() from None
+
+            def collect_errors(self, val: t.Any) -> t.Any:
+                try:
+                    self.try_convert(val)
+                    return None
+                except ParseInterrupt:
+                    return WrongTypeError(self.expected(), val)
+        HD = {_dt.date: DayReader()}
+        day = _dt.date(2020, 1, 2)
+        for (what, f, want) in ((('into_data(day, date)', lambda: pane.into_data(day, _dt.date, custom=HD), '2020-01-02'), ('into_data(day)', lambda: pane.into_data(day, custom=HD), '2020-01-02'),
+                                 ('convert(day, date)', lambda: pane.convert(day, _dt.date, custom=HD), day), ('into_data([day], List[date])', lambda: pane.into_data([day], t.List[_dt.date], custom=HD), ['2020-01-02']))
+                                if case.endswith('call') else
+                                (('Event(when=day)', lambda: type('Event', (pane.PaneBase,), {'__annotations__': {'when': _dt.date}}, custom=HD)(when=day).when, day),)):
+            ctx.evaluated()
+            (k, r) = outcome(f)
+            if k != 'ok' or r != want:
+                ctx.fail('both-directions', f"{case.split(':')[0]}:date:{type(r).__name__ if k != 'ok' else 'value'}", f"{case}: {what} under a handler {{date: <converter without into_data>}} gave "
+                         f"{short(r, 80) if k == 'ok' else type(r).__name__ + ': ' + str(r)[:150]}; expected {want!r}")
+                return
         if case.endswith('call'):
             calls = [('from_data(5, int)', lambda: pane.from_data(5, int, custom=H), 105), ('convert(5, int)', lambda: pane.convert(5, int, custom=H), 105),
                      ('convert([5], List[int])', lambda: pane.convert([5], t.List[int], custom=H), [105]),
